@@ -13,7 +13,7 @@ LEVEL = "model_checking"
 EXPLANATION = ("symbolic execution of the real trigger loops (legacy TrigInfo.trigger_watch and StateTriggerDecorator._cycle/_check_new_state) through the full stack "
                "on a virtual clock; event gaps, truth values and event kinds symbolic; reference timeline oracle")
 BOUNDS = {"quick": "3 events, gaps in [1 ms, 8 s] (integer ms), S = 5 s, H = 3 s; event kinds: 1st value write, 2nd/3rd value write or attribute-only; values {0,1} then {0,1,2}; 9 configurations x initial truth x 2 subsystems",
-          "thorough": "3 events of any kind; all 27 configurations x initial truth x 2 subsystems"}
+          "thorough": "3 events (1st a value write, 2nd a value write, attribute-only update or change of an unwatched entity, 3rd a value write or attribute-only update); all 27 configurations x initial truth x 2 subsystems"}
 OUTSIDE = "exact ties between an event and a timer expiry (excluded by precondition, as in the property); floating-point effects of loop.time() arithmetic (exact rationals); more events than the bound"
 ASSUMPTIONS = [
     "stub Home Assistant state machine (drops writes that change nothing, as HA does), harness scheduler mirroring asyncio's FIFO ready queue, virtual clock in integer microseconds",
@@ -159,8 +159,8 @@ def cfg_name(c):
 def obligations(tier):
     o = []
     k = 3
-    kinds = [0, 1, 1, 0] if tier == "quick" else [2, 2, 2, 0]      # highest event kind allowed per position (0 value write, 1 attribute-only, 2 unwatched entity)
-    vmax = [1, 2, 1] if tier == "quick" else [2, 2, 2]            # highest new value per position
+    kinds = [0, 1, 1, 0] if tier == "quick" else [0, 2, 1, 0]      # highest event kind allowed per position (0 value write, 1 attribute-only, 2 unwatched entity)
+    vmax = [1, 2, 1]            # highest new value per position
     cfgs = QUICK_CFGS if tier == "quick" else CFGS
     for legacy in (True, False):
         for cfg in cfgs:
